@@ -129,6 +129,7 @@ def opts_for(r, op):
         o["zerod"] = r.random() < 0.4
     if op == "scan":
         o["axis1"] = r.random() < 0.3
+        o["defaults"] = r.random() < 0.4
     if op in ("reduce", "scan", "nonzero", "col"):
         o["how"] = r.choice(["method", "np", "positional"] if op == "reduce" else ["method", "np"])
     if op in ("where", "subset"):
